@@ -19,6 +19,7 @@ H = {
     "amount_to_scalar_total": dict(crate="zkabacus-crypto", what="PaymentAmount::to_scalar never panics or wraps, for all i64 (including i64::MIN, decodable from the wire)", functions=["za.PaymentAmount::to_scalar"],
                                    native="let v = i64::from_le_bytes({V0});\n        let a: crate::PaymentAmount = bincode_free_amount(v);\n        let _ = a.to_scalar();"),
     "balance_to_scalar_total": dict(crate="zkabacus-crypto", what="Balance::to_scalar total for all u64", functions=["za.Balance::to_scalar"]),
+    "amount_decode_total": dict(crate="zkabacus-crypto", what="decoding a PaymentAmount from any i64 wire value never panics, is lossless, and the decoded amount encodes to a scalar without panic (all i64 incl. i64::MIN)", functions=["serde derive Deserialize for PaymentAmount", "za.PaymentAmount::to_scalar"]),
     "balance_decode_invariant": dict(crate="zkabacus-crypto", what="decoding a CustomerBalance/MerchantBalance from any u64 wire value succeeds iff value <= 2^63-1 and is lossless (real serde derive of the three newtypes; all u64)", functions=["serde derive Deserialize for Balance"]),
     "channel_id_from_str_exact": dict(crate="zkabacus-crypto", what="ChannelId::from_str: Ok iff the base64 decoding (recording stub, any result of length <= 40 or an error) has exactly 32 bytes, and then the id is exactly those bytes; every other decoding result is an error, never a panic", functions=["states.<ChannelId as FromStr>::from_str"]),
     "array_visitor_total_n1": dict(crate="zkchannels-crypto", what="[G;1] sequence visitor: value or error (no panic) for any announced length <= N+2 and any size hint; Ok iff exactly N elements", functions=["serde.<[G; N] as SerializeElement>::deserialize"], note="complete for code that stops at capacity: the first N+1 steps of any longer sequence are identical"),
@@ -38,6 +39,8 @@ H = {
     "range_digits_exact": dict(crate="zkchannels-crypto", what="prefix of generate_constraint_commitments (sign test + digit decomposition, sliced verbatim): Err iff value < 0; otherwise 9 digits < 128 with sum d_j*128^j == value; all i64, bit-precise, shape-independent", functions=["range.RangeConstraintBuilder::generate_constraint_commitments (statements before the digit proof builders)"]),
     "g1_codec_validates": dict(crate="zkchannels-crypto", what="G1 element codec: for all 48-byte strings the wire bytes reach bls12_381 G1Affine::from_compressed unchanged, exactly once, no non-validating decoder is reached, and the result is Ok iff that decoder accepts; shorter input is an error", functions=["serde.<G1Affine as SerializeElement>::deserialize"]),
     "g1_codec_short_input": dict(crate="zkchannels-crypto", what="G1 element codec: any input shorter than 48 bytes is an error (no panic) and reaches no decoder", functions=["serde.<G1Affine as SerializeElement>::deserialize"]),
+    "g1_projective_codec_validates": dict(crate="zkchannels-crypto", what="G1Projective codec (every Commitment<G1> field): all 48-byte strings reach the validating G1Affine::from_compressed unchanged, exactly once; Ok iff it accepts", functions=["serde.<G1Projective as SerializeElement>::deserialize"]),
+    "g2_projective_codec_validates": dict(crate="zkchannels-crypto", what="G2Projective codec: same, 96 bytes", functions=["serde.<G2Projective as SerializeElement>::deserialize"]),
     "g2_codec_validates": dict(crate="zkchannels-crypto", what="G2 element codec: same, all 96-byte strings, G2Affine::from_compressed", functions=["serde.<G2Affine as SerializeElement>::deserialize"]),
     "scalar_codec_validates": dict(crate="zkchannels-crypto", what="Scalar codec: all 32-byte strings reach Scalar::from_bytes (canonical only) unchanged; Ok iff it accepts; no reducing decoder (from_bytes_wide/from_raw) is reached", functions=["serde.<Scalar as SerializeElement>::deserialize"]),
     "big_boxed_array_total_n2": dict(crate="zkchannels-crypto", what="big_boxed_array::deserialize (codec of the 128 digit signatures; generic in N, checked at N=2): value or error, never a panic, for any number of presented elements <= N+2 and any size hint; error when fewer than N", functions=["serde.big_boxed_array::deserialize"], note="serde_big_array's own visitor is in the path (dependency code, executed, not assumed)"),
